@@ -717,6 +717,16 @@ impl Printer<'_> {
                 }
             }
             E::Switch(..) | E::Match(..) | E::While(..) | E::For(..) | E::Loop(..) | E::Try(..) => self.stmt(v, ind),
+            E::Map(entries) if !entries.is_empty() && entries.iter().any(|(_, x)| matches!(x, E::Fn(_, _, b) if !Self::is_inlineable(b))) => {
+                // block map: one entry per indented line
+                for (k, x) in entries {
+                    self.out.push('\n');
+                    self.indent(ind + 2);
+                    self.out.push_str(k);
+                    self.out.push_str(": ");
+                    self.expr_ind(x, 0, ind + 2);
+                }
+            }
             E::Fn(..) => self.expr_ind(v, 0, ind),
             E::Print(..) => self.stmt(v, ind),
             _ => self.expr_ind(v, 0, ind),
@@ -942,10 +952,23 @@ impl Printer<'_> {
                 self.out.push(')');
             }
             E::Pipe(a, f) => {
-                let ap = matches!(**a, E::Bin(..) | E::Not(_)) || a.is_compound() || matches!(**a, E::Assign(..) | E::Pipe(..)) && false;
-                self.paren_if(ap && false, a, ind);
+                let ap = !matches!(**a, E::Id(_) | E::Int(_) | E::Float(_) | E::Paren(_) | E::Call(..) | E::Index(..) | E::Dot(..) | E::Pipe(..) | E::Str(_) | E::List(_)) || matches!(**a, E::Int(n) if n < 0) || matches!(**a, E::Float(x) if x < 0.0);
+                self.paren_if(ap, a, ind);
                 self.out.push_str(" -> ");
-                self.expr_ind(f, 0, ind);
+                match &**f {
+                    E::Call(c, args) if !args.is_empty() && !args.iter().any(|(x, p)| *p || Self::starts_ambiguous(x)) => {
+                        // paren-free call: `a -> f b, c` is f(a, b, c)
+                        self.root(c, ind);
+                        self.out.push(' ');
+                        for (i, (x, _)) in args.iter().enumerate() {
+                            if i > 0 {
+                                self.out.push_str(", ");
+                            }
+                            self.arg(x, ind);
+                        }
+                    }
+                    other => self.expr_ind(other, 0, ind),
+                }
             }
             E::If(arms, els) => {
                 if arms.len() == 1 && arms.iter().all(|(_, b)| Self::is_inlineable(b)) && els.as_ref().map(|b| Self::is_inlineable(b)).unwrap_or(true) {
